@@ -73,6 +73,8 @@ CHECK_DEADLOCK FALSE
             a += ["--big", "1"]
         if k in (0, 1):
             a += ["--conc", sp_conc]
+        if k == 2:
+            a += ["--fullpool"]
         # block-size boundaries (the pool's internal write batches, the per-block limit)
         size_sets = ["1,2,99,100,101", "199,200", "201,250", "150,300"] if quick else \
                     ["1,2,3,50,99,100,101", "149,150,151", "198,199", "200", "201,202", "250,299", "300,301", "400", "64,128,256", "32,512"]
@@ -102,7 +104,7 @@ CHECK_DEADLOCK FALSE
                         samples.append(e)
                 elif e["event"] in ("Pack", "UnMark") and len(samples) < 4 and len(e["state"]["pending"]) < 12:
                     samples.append(e)
-    for need in ("Add", "Pack", "Mark", "UnMark", "Conc"):
+    for need in ("Add", "Pack", "Mark", "UnMark", "Conc", "FullPoolReorg"):
         if kinds[need] == 0:
             raise Inconclusive("vacuity: no %s event" % need)
     if gates["add.checked"] == 0 or (gates["mark.written"] == 0 and gates["blocked"] == 0):
